@@ -32,7 +32,7 @@ def asum(*dgms, shift=0.0):
 
 
 def sw(ctx, A, B, M):
-    out = ctx.call(sliced_wasserstein, arr(A), arr(B), M)
+    out = ctx.call(sliced_wasserstein, arr(A), arr(B), M=M)
     ctx.require(np.ndim(out) == 0 and math.isfinite(float(out)), "not_finite", lambda: "sliced_wasserstein = %r" % (out,))
     return float(out)
 
@@ -59,7 +59,7 @@ def check_value(case, ctx):
         flat = [x for p in A + B for x in p]
         dt = np.uint8 if (min(flat) >= 0 and max(flat) <= 255) else np.int16
         ctx.label("narrow_int_dtype:" + np.dtype(dt).name)
-        out = ctx.call(sliced_wasserstein, np.array(A, dtype=dt), np.array(B, dtype=dt), M)
+        out = ctx.call(sliced_wasserstein, np.array(A, dtype=dt), np.array(B, dtype=dt), M=M)
         ctx.require(np.ndim(out) == 0 and math.isfinite(float(out)), "not_finite", lambda: "sliced_wasserstein = %r" % (out,))
         v = float(out)
     else:
